@@ -31,6 +31,7 @@
 #include <stdint.h>
 #include <errno.h>
 #include <semaphore.h>
+#include <pthread.h>
 #include <unistd.h>
 #include <time.h>
 
@@ -617,6 +618,16 @@ static void run_ops(int T, prog_t * p, void ** exit_val) {
         rr = myth_join(thr_ptr[num(o->w[1])], &v); sprintf(e2, "val=%ld", (long)v); ev_ret(T, rr, e2);
       }
       r = rr;
+    } else if (!strcmp(op, "cancel")) {
+      /* cancellation (C01): cancel T / testcancel / setcancel 0|1.  testcancel may not return (the thread then
+         takes its exit path with PTHREAD_CANCELED as result: no R line, E finish.enter follows) */
+      r = myth_cancel(thr_ptr[num(o->w[1])]);
+    } else if (!strcmp(op, "testcancel")) {
+      myth_testcancel();
+    } else if (!strcmp(op, "setcancel")) {
+      int old = -1;
+      r = myth_setcancelstate(num(o->w[1]) ? PTHREAD_CANCEL_ENABLE : PTHREAD_CANCEL_DISABLE, &old);
+      sprintf(ex, "old=%d", old == PTHREAD_CANCEL_ENABLE ? 1 : 0);
     } else if (!strcmp(op, "detach")) {
       r = myth_detach(thr_ptr[num(o->w[1])]);
     } else if (!strcmp(op, "exit")) {
